@@ -511,6 +511,13 @@ func fixedWorld(name string, s *world.Signers) (*WorldFile, error) {
 		b.subsec(b.addc(p22, "tag", "a", 170), 500)
 		b.subsec(b.set(p21, "title", "hello", 180), 300)
 		b.subsec(b.set(p20, "title", "hello", 180), 600)
+		for k, ms := range []int{250, 750, 50, 990} { // four more in the same second: 7 keys that differ only below the second
+			q := b.pn(fmt.Sprint(23 + k))
+			b.subsec(b.addc(q, "tag", "a", 170), ms)
+			if k%2 == 0 {
+				b.subsec(b.set(q, "title", "hello", 180), 999-ms)
+			}
+		}
 		p19 := b.pn("19")
 		b.set(p19, "camliPath:x", p1, 160)
 		b.set(p19, "camliPath:x", p5, 161)
